@@ -9,7 +9,8 @@ from .. import gen
 from ..canon import Abs
 from . import common as K
 
-ID_POOL = [2, 7, 9, 10, 11, 99, 100, 101, 999, 1000, 1001, 10000, 123456]
+ID_POOL = [2, 7, 9, 10, 11, 99, 100, 101, 999, 1000, 1001, 10000, 123456,
+           2 ** 53, 2 ** 53 + 1, 2 ** 53 + 2, 2 ** 53 + 3, 10 ** 20, 10 ** 20 + 1]
 PADDED = {7: '007', 10: '0010', 99: '099'}
 
 META = {
